@@ -16,20 +16,21 @@ const samplesPerClass = 2
 
 // Partial is the on-disk form of one process's coverage record.
 type Partial struct {
-	Property    string                       `json:"property"`
-	Test        string                       `json:"test"`
-	Evaluations int                          `json:"evaluations"`
-	Digests     []string                     `json:"digests"` // 8-byte digests of distinct non-trivial cases
-	Classes     map[string]int               `json:"classes"`
-	NonTrivial  map[string]int               `json:"nontrivial_by_class"`
-	Samples     map[string][]json.RawMessage `json:"samples"`
-	Oracles     map[string]int               `json:"oracles"`
-	Excluded    map[string]int               `json:"excluded"`
-	Extra       map[string]any               `json:"extra"`
-	Required    []string                     `json:"required_classes"`
-	Exhaustive  bool                         `json:"exhaustive"`
-	Violations  []Violation                  `json:"violations"`
-	Known       []string                     `json:"known"`
+	Property               string                       `json:"property"`
+	Test                   string                       `json:"test"`
+	Evaluations            int                          `json:"evaluations"`
+	Digests                []string                     `json:"digests"` // 8-byte digests of distinct non-trivial cases
+	Classes                map[string]int               `json:"classes"`
+	NonTrivial             map[string]int               `json:"nontrivial_by_class"`
+	Samples                map[string][]json.RawMessage `json:"samples"`
+	Oracles                map[string]int               `json:"oracles"`
+	Excluded               map[string]int               `json:"excluded"`
+	Extra                  map[string]any               `json:"extra"`
+	Required               []string                     `json:"required_classes"`
+	Exhaustive             bool                         `json:"exhaustive"`
+	DistinctByConstruction int                          `json:"distinct_by_construction"` // enumerated (hence pairwise distinct) non-trivial cases not digested
+	Violations             []Violation                  `json:"violations"`
+	Known                  []string                     `json:"known"`
 }
 
 type Violation struct {
@@ -99,6 +100,23 @@ func (c *Collector) CaseCounted(class string, nontrivial bool, digest string, sa
 		c.p.NonTrivial[class]++
 		h := sha1.Sum([]byte(class + "\x00" + digest))
 		c.digests[hex.EncodeToString(h[:8])] = struct{}{}
+	}
+	if len(c.p.Samples[class]) < samplesPerClass && sample != nil {
+		raw, _ := json.Marshal(sample())
+		c.p.Samples[class] = append(c.p.Samples[class], raw)
+	}
+}
+
+// CountEnumerated records a case of an explicit enumeration without
+// serialising it: enumerated cases are pairwise distinct by construction.
+func (c *Collector) CountEnumerated(class string, nontrivial bool, sample func() any) {
+	c.mu.Lock()
+	defer c.mu.Unlock()
+	c.p.Evaluations++
+	c.p.Classes[class]++
+	if nontrivial {
+		c.p.NonTrivial[class]++
+		c.p.DistinctByConstruction++
 	}
 	if len(c.p.Samples[class]) < samplesPerClass && sample != nil {
 		raw, _ := json.Marshal(sample())
